@@ -113,7 +113,7 @@ def outcome(f):
 
 class C20(Prop):
     ID = "C20"
-    QUICK = 400
+    QUICK = 2500
     THOROUGH = 8000
     RULE = ("modes: select — validator_for on every $schema spelling (each registered id with / without '#', absent, "
             "boolean schema, 16 unknown or near-miss strings) with / without default= against a table model, incl. the "
